@@ -12,6 +12,7 @@ pub mod c12;
 pub mod c15;
 pub mod c16;
 pub mod c33;
+pub mod c37;
 pub mod c41;
 pub mod c42;
 pub mod cfgdiff;
@@ -34,6 +35,7 @@ fn table() -> Vec<(&'static str, CheckFn)> {
         ("C16", c16::run),
         ("C31", c03::run_c31),
         ("C33", c33::run),
+        ("C37", c37::run),
         ("C41", c41::run),
         ("C42", c42::run),
     ]
